@@ -70,21 +70,21 @@ CLAIMED = {
 
 # clauses added in rounds 6-7 (appended to the claim text of the property)
 EXTRA = {
-	'C01': ' Also: a source group is always rendered with its parentheses (no decision on the rendered text), and every rendering of a range() loop takes start, bound and step from the separated arguments; the brace-initialiser conversion is applied only when the assigned node is a call.',
-	'C02': ' Also: list-valued child selections decide each child on its own (no early stop), and classification by decorator searches the whole decorator list.',
-	'C03': ' Also: every walker over symbol.attrs in the reflection layer descends into the enumerated child itself, so substitution of type variables reaches every nesting level.',
-	'C04': ' Also: no parameter default constructed at definition time is modified or handed on, and extends() is only ever called on newly created reflections (never on a symbol of the shared table).',
-	'C05': ' Also: SymbolDB selects the rows of a module by equality of the module part, never by a prefix or substring test (one cache file per module identity).',
+	'C01': ' Also: a source group is always rendered with its parentheses (no decision on the rendered text), and every rendering of a range() loop takes start, bound and step from the separated arguments; the brace-initialiser conversion is applied only when the assigned node is a call. The fill-list rendering reads its operands by role, not by position.',
+	'C02': ' Also: list-valued child selections decide each child on its own (no early stop), and classification by decorator searches the whole decorator list. Positional slices of child lists must be conditioned on the dropped position.',
+	'C03': ' Also: every walker over symbol.attrs in the reflection layer descends into the enumerated child itself, so substitution of type variables reaches every nesting level. The arms of a conditional expression are merged only when the whole reflections are equal.',
+	'C04': ' Also: no parameter default constructed at definition time is modified or handed on, and extends() is only ever called on newly created reflections (never on a symbol of the shared table). Each transpile gets a new dependency frame; class-body containers are not written through self.',
+	'C05': ' Also: SymbolDB selects the rows of a module by equality of the module part, never by a prefix or substring test (one cache file per module identity). The loader and cache classes keep their memo tables per instance.',
 	'C06': ' Also: can_transpile, evaluated as a boolean function of (header readable, header differs, other conditions), regenerates whenever no header can be read or it differs, and leaves an unchanged module untouched; the recorded hash must cover the module file and its imports (violated today: known finding F42).',
-	'C07': ' Also: the read of the module source lies inside the same Errors.Syntax boundary as the parser call (helper-aware), and ErrorRender stringifies error arguments only inside a try that cannot re-raise; results of functions declared to return T | None are tested before an attribute is read.',
-	'C08': ' Also: the declaration merge compares an added variable with every collected declaration (not one representative per spelling), and constant words rewritten in rendered code are anchored.',
-	'C10': ' A memo key that mentions a parameter only through a derived value is accepted only when the method reads the parameter through that same value. Prefix tests on entry paths are separator-anchored.',
-	'C11': ' Also: the index of the reported cause token is bounded below, and progress state written during a parse is re-initialised at the start of the next one.',
-	'C12': ' Also: the quote scan that delimits string and regexp terminals decides on the parity of the backslash run (shared with C13); engine classes hold no state shared between rule sets; the rule-module renderer must escape per token (violated today: known finding F41).',
-	'C13': ' Also: the quote scan ends on the parity of the backslash run for every quote pair, and the layout Context handed to the handlers is constructed per source.',
-	'C15': ' Also: every written record takes its name, token text and span from one and the same entry (may-reaching definitions of the span variable).',
+	'C07': ' Also: the read of the module source lies inside the same Errors.Syntax boundary as the parser call (helper-aware), and ErrorRender stringifies error arguments only inside a try that cannot re-raise; results of functions declared to return T | None are tested before an attribute is read. Regexp terminals of the engine grammars have no nested unbounded repeats; the frozen lookup boundaries convert a missing key into their Errors class.',
+	'C08': ' Also: the declaration merge compares an added variable with every collected declaration (not one representative per spelling), and constant words rewritten in rendered code are anchored. Identifier character classes in the back-end regexps are case-complete.',
+	'C10': ' A memo key that mentions a parameter only through a derived value is accepted only when the method reads the parameter through that same value. Prefix tests on entry paths are separator-anchored. No slice bound is a negated value that can be zero.',
+	'C11': ' Also: the index of the reported cause token is bounded below, and progress state written during a parse is re-initialised at the start of the next one. Regexp terminals are matched with fullmatch.',
+	'C12': ' Also: the quote scan that delimits string and regexp terminals decides on the parity of the backslash run (shared with C13); engine classes hold no state shared between rule sets; the rule-module renderer must escape per token (violated today: known finding F41). from_ast does not mutate the tree it reads.',
+	'C13': ' Also: the quote scan ends on the parity of the backslash run for every quote pair, and the layout Context handed to the handlers is constructed per source. The lexer keeps no state between sources; a joined token spans from its own start.',
+	'C15': ' Also: every written record takes its name, token text and span from one and the same entry (may-reaching definitions of the span variable). Names and token texts are stored verbatim.',
 	'C17': ' Also: a string body written between quotes it was not written with is re-escaped.',
-	'C19': ' Also: in LazyDI, operations on the by-name definitions are decided by tests of that layer (unbind removes an unresolved registration; the proxy binding happens exactly when defined and not yet materialised); every whole-store installation copies.',
+	'C19': ' Also: in LazyDI, operations on the by-name definitions are decided by tests of that layer (unbind removes an unresolved registration; the proxy binding happens exactly when defined and not yet materialised); every whole-store installation copies. The argument count is compared with the expected count, not with a zip-built list.',
 }
 
 NOT_APPLICABLE = {
